@@ -1,4 +1,4 @@
-import SpecVerif.Model.C17
+import SpecVerif.Model.C17Impl
 /-!
 Line-protocol driver for the C17 correspondence: evaluates the definitions of
 `SpecVerif.C17` that the theorems of `Props/C17.lean` are about.
@@ -17,6 +17,20 @@ Tokens are separated by single spaces. A signature is one token:
      -> `err TypeError` | `ok <pos> ;; <kw> ;; impl <ok|err>` | `unbuilt`
   sig <sig>                           a plain function signature (pyBind test)
   bind <npos> <kwname>*               -> `err TypeError` | `ok name=<bval> …`
+
+Behaviour of the two implementations that take the class's own attribute keywords (Model/C17Impl.lean).
+A keyword token is `name` (value `k.<name>`) or `name=<value>`; a value `M.…`/`E.…`/`U.…` is the
+sentinel MISSING/EMPTY/UNCHANGED, `F.…` is falsy, everything else a plain truthy value.
+
+  hier <ovf|_> <attrs|-> <ancestor>*  the hierarchy of the class whose constructor `method init …` built
+        attrs    = name:init:owner:hasDefault,…      (`instance_metadata.attrs`; owner 0 = the class itself)
+        ancestor = id/isSpec/<key|->/<nested|->      (`mro()[1:]`, nearest first; key+nested describe ITS constructor)
+     -> `hier <0|1> ;; <ovf> ;; <attrs> ;; id:isSpec:key:attr+attr:<ctor sig> …`   (1 = `hierOKB`)
+  new <kw>*                           `runInit`: the generated constructor, wrapper then `InitMethod.init`
+     -> `err TypeError` | `ok a=<v>,… ;; ovf <none|-|k=<v>,…>`     (attributes sorted by name)
+  obj <self|new> <name=value,…|->     attributes of the receiver / of the replacement object   -> `obj`
+  upd <npos> <kw>*                    `runUpdate` (after `method update …`); positional 1 is the replacement
+     -> `err TypeError` | `ok <self|new|copy> ;; res <fields> ;; self <fields> ;; new <fields>`
 -/
 open SpecVerif.Py SpecVerif.C17
 
@@ -98,6 +112,76 @@ structure St where
   impl : Sig
   sig : Sig
   built : Bool
+  cfg : InitCfg := ⟨[], none, []⟩
+  selfF : Fields String := []
+  newF : Fields String := []
+
+/-! ### behaviour commands -/
+
+def envOf (newF : Fields String) : Env String :=
+  { sent := fun v =>
+      if v.startsWith "M." then .missing else if v.startsWith "E." then .empty
+      else if v.startsWith "U." then .unchanged else .plain
+    truthy := fun v => !(v.startsWith "F.")
+    fieldsOf := fun _ => newF }
+
+/-- `name` or `name=value` -/
+def parseKw (t : String) : Name × String :=
+  match t.splitOn "=" with
+  | [n, v] => (n, v)
+  | _ => (t, s!"k.{t}")
+
+def mkCallV (npos : Nat) (kws : List String) : Call String :=
+  { pos := (List.range npos).map (fun i => s!"p{i}"), kw := kws.map parseKw }
+
+def sortFields {β : Type} (fs : Fields β) : Fields β := fs.mergeSort (fun a b => decide (a.1 ≤ b.1))
+
+def showFields (fs : Fields String) : String :=
+  if fs.isEmpty then "-" else ",".intercalate ((sortFields fs).map fun kv => s!"{kv.1}={kv.2}")
+
+def parseFields (t : String) : Fields String :=
+  if t == "-" then [] else (t.splitOn ",").filterMap fun kv =>
+    match kv.splitOn "=" with
+    | [n, v] => some (n, v)
+    | _ => none
+
+def showIVal : IVal String → String
+  | .given v => v
+  | .missing => "M"
+  | .dflt n => s!"D.{n}"
+
+def showIFields (fs : Fields (IVal String)) : String :=
+  if fs.isEmpty then "-" else ",".intercalate ((sortFields fs).map fun kv => s!"{kv.1}={showIVal kv.2}")
+
+def parseCAttr (t : String) : Option CAttr :=
+  match t.splitOn ":" with
+  | [n, i, o, d] => do pure ⟨n, i == "1", ← o.toNat?, d == "1"⟩
+  | _ => none
+
+def parseAncestor (t : String) : Option Ancestor :=
+  match t.splitOn "/" with
+  | [i, sp, key, nested] => do
+    let id ← i.toNat?
+    let key ← parseKey key
+    let nested ← parseNested nested
+    let ctor := match builderFor ⟨.init, key, nested⟩ with
+      | .ok b => advertised b
+      | .error _ => []
+    pure ⟨id, sp == "1", (nested.map (·.attrs.map (·.name))).getD [], key.map (·.1),
+          if sp == "1" then ctor else []⟩
+  | _ => none
+
+def b01 (b : Bool) : String := if b then "1" else "0"
+
+def showHier (cfg : InitCfg) : String :=
+  let attrs := if cfg.attrs.isEmpty then "-" else
+    ",".intercalate (cfg.attrs.map fun a => s!"{a.name}:{b01 a.init}:{a.owner}:{b01 a.hasDefault}")
+  let anc := cfg.ancestors.map fun p =>
+    s!"{p.id}:{b01 p.isSpec}:{p.key.getD "_"}:{if p.attrs.isEmpty then "-" else "+".intercalate p.attrs}:{showSig p.ctor}"
+  s!"hier {b01 (hierOKB cfg)} ;; {cfg.overflow.getD "_"} ;; {attrs} ;; " ++ " ".intercalate anc
+
+def showSrc : Src → String
+  | .self => "self" | .newValue => "new" | _ => "copy"
 
 def showBuilder (b : Builder) : String :=
   s!"adv {showSig (advertised b)} ;; cmp {showSig (compiled b)} ;; val {if !b.virt.isEmpty && b.checkAttrs then 1 else 0}"
@@ -147,6 +231,30 @@ def handle (st : St) (line : String) : St × String :=
       | .ok f =>
         let implOk := acceptsB st.impl f.toCall
         (st, "ok " ++ showFCall f ++ " ;; impl " ++ (if implOk then "ok" else "err"))
+  | "hier" :: ovf :: attrs :: ancs =>
+    match (if attrs == "-" then some [] else (attrs.splitOn ",").mapM parseCAttr), ancs.mapM parseAncestor with
+    | some attrs, some ancs =>
+      let cfg : InitCfg := ⟨attrs, if ovf == "_" then none else some ovf, ancs⟩
+      ({ st with cfg := cfg }, showHier cfg)
+    | _, _ => (st, "bad-op")
+  | "new" :: kws =>
+    if !st.built then (st, "unbuilt") else
+    match runInit (envOf []) st.b st.cfg (mkCallV 1 kws) with
+    | .error e => (st, "err " ++ e.name)
+    | .ok r => (st, s!"ok {showIFields r.fields} ;; ovf " ++
+        (match r.overflow with | none => "none" | some o => showIFields o))
+  | ["obj", which, fs] =>
+    if which == "self" then ({ st with selfF := parseFields fs }, "obj")
+    else ({ st with newF := parseFields fs }, "obj")
+  | "upd" :: n :: kws =>
+    match n.toNat? with
+    | none => (st, "bad-op")
+    | some n =>
+      if !st.built then (st, "unbuilt") else
+      match runUpdate (envOf st.newF) st.b st.selfF (mkCallV n kws) with
+      | .error e => (st, "err " ++ e.name)
+      | .ok r => (st, s!"ok {showSrc r.src} ;; res {showFields r.fields} ;; self " ++
+          s!"{showFields (r.selfAfter st.selfF)} ;; new {showFields (r.newAfter st.newF)}")
   | ["sig", s] =>
     match parseSig s with
     | none => (st, "bad-op")
